@@ -71,6 +71,14 @@ PROPS = {
                         'the entry metadata handed to the time tests is the record the follow mode selects (C13, unit entry)'],
         'not_decided': ['parse_str_to_newer_args (regex) is covered by unit parse/C11'],
     },
+    'C13': {
+        'level': 'proof',
+        'explanation': 'Follow::{follow_at_depth, metadata (all four branches), root_metadata, metadata_at_depth} return exactly rec_for(mode, depth, path): lstat under -P, stat falling back to lstat for a dangling link under -L, stat for starting points only under -H; -type/-perm/-inum/-links/-uid/-gid/-empty read the record the follow mode selects, -xtype the opposite one, -lname is false unless that record is a symbolic link; -perm MODE/-MODE//MODE are the three bit-mask conditions of the statement over the twelve permission bits; none of these tests touches MatcherIO.',
+        'assumptions': ['POSIX relations between stat() and lstat() (never a symlink from stat; equal on non-links; lstat failure implies the same stat failure)',
+                        'WalkEntry::{metadata, file_type, path_is_symlink} (OnceCell/closure code) return the record rec_for(entry.follow(), path) resp. its type: assumed, together with walkdir DirEntry::{metadata, file_type} agreeing with the follow mode the walker was configured with (the configuration itself is an obligation of unit walk)',
+                        'uucore::mode::parse_numeric / parse_symbolic (so that symbolic and octal spellings agree is assumed, not proved)', 'nix user/group lookup for -user/-group/-nouser/-nogroup', 'uucore FileInformation for -samefile'],
+        'not_decided': ['-samefile, -nouser, -nogroup: dependency calls only, no contract within reach', 'symbolic == octal mode spelling (uucore)'],
+    },
 }
 for k in PROPS.values():
     k.setdefault('trusted', [])
